@@ -24,6 +24,28 @@ Local Open Scope Z_scope.
 Definition hm_slot (hash : key -> list token) (probe stored : key) : bool :=
   stream_eqb (hash probe) (hash stored) && key_eq probe stored.
 
+(* `Eq for ObjKey` exactly as written: the nested-dictionary arm calls `b.get(k)`, a hashed lookup (same bucket
+   AND Eq, recursively).  DictMap_proofs.v shows key_eq_hm = key_eq on valid keys. *)
+Section KeyEqHM.
+  Variable hash : key -> list token.
+  Fixpoint key_eq_hm (a b : key) {struct a} : bool :=
+    match a, b with
+    | KNull, KNull => true
+    | KNum x, KNum y => num_total_eq x y
+    | KStr s, KStr t => bytes_eqb s t
+    | KList l, KList m => list_eqb key_eq_hm l m
+    | KDict d, KDict e =>
+        Nat.eqb (length d) (length e) &&
+        forallb (fun kv => match afindp (fun k' => stream_eqb (hash (fst kv)) (hash k') && key_eq_hm (fst kv) k') e with
+                           | Some (_, v') => key_eq_hm (snd kv) v'
+                           | None => false
+                           end) d
+    | KVec v, KVec w => list_eqb num_total_eq v w
+    | KBytes s, KBytes t => bytes_eqb s t
+    | _, _ => false
+    end.
+End KeyEqHM.
+
 (* ------------------------------------------------------------------ primitives *)
 Section Prim.
   Variable slot : key -> key -> bool.
